@@ -78,27 +78,37 @@ def _round(cluster, subs, hist, gen_mode):
         return None, None, ("exception:" + type(e).__name__, f"assign() raised {type(e).__name__}: {e}")
 
 
+def _gave_to_new(prev_res, res, new):
+    """Old members that owned, in the previous round, a partition a member of `new` owns now."""
+    prev_owner = {tp: m for m, tps in E.flat(prev_res).items() for tp in tps}
+    return {prev_owner[tp] for m in new for tp in E.flat(res).get(m, ()) if tp in prev_owner}
+
+
 def _judge_step(spec, step, prev_subs, prev_res, subs, res):
-    """Oracles for one later round. -> list of (oracle, kind, message)"""
-    bad = [("valid", k, msg) for k, msg in E.check_valid(spec, subs, res)]
+    """Oracles for one later round. -> list of (oracle, kind, message, extra signature facts)"""
+    bad = [("valid", k, msg, {}) for k, msg in E.check_valid(spec, subs, res)]
     if step[0] == "same":
         a, b = E.flat(prev_res), E.flat(res)
         if a != b:
             diff = {m: (a.get(m), b.get(m)) for m in sorted(set(a) | set(b)) if a.get(m) != b.get(m)}
             bad.append(("unchanged_input_same_result", "assignment_changed",
-                        f"nothing changed, yet the assignment did: (before, after) per member {diff}"))
+                        f"nothing changed, yet the assignment did: (before, after) per member {diff}", {}))
     elif step[0] == "minus":
         mv = E.moved_between(prev_res, res, set(subs))
         if mv:
             bad.append(("departed_members", "moved_between_survivors",
                         f"members {list(step[1])} left; partitions moved between survivors: "
-                        + ", ".join(f"{t}[{p}] {a}->{b}" for (t, p), a, b in mv)))
+                        + ", ".join(f"{t}[{p}] {a}->{b}" for (t, p), a, b in mv), {}))
     else:
         mv = E.moved_between(prev_res, res, set(prev_subs))
         if mv:
+            gave = _gave_to_new(prev_res, res, set(subs) - set(prev_subs))
+            # discriminating fact: every old member that received a moved partition handed one of its own
+            # partitions to a new member in this very round (the move refills it), vs. a gratuitous exchange
+            facts = {"every_receiver_gave_to_new_member": all(b in gave for _, _, b in mv)}
             bad.append(("new_members", "moved_between_old_members",
                         f"members {list(step[1])} joined; partitions moved between old members: "
-                        + ", ".join(f"{t}[{p}] {a}->{b}" for (t, p), a, b in mv)))
+                        + ", ".join(f"{t}[{p}] {a}->{b}" for (t, p), a, b in mv), facts))
     return bad
 
 
@@ -134,11 +144,17 @@ def _explore(acc, mv, states, masks, gen_mode, depth):
                        f"round {gen + 1} ({step[0]}): {problem[1]}; first-round input {_desc(states, subs1)}")
                 continue
             bad = _judge_step(spec, step, subs, res, nsubs, nres)
-            for oracle, k, msg in bad:
-                mv.add(size, oracle, {"step": step[0], "kind": k, "unsubscribed_topic_with_partitions": _extra_topic(spec, nsubs)}, replay,
+            # signature facts are independent of names and sizes: which membership changes preceded this round
+            # ("none" = the previous assignment is the fresh first-round one, i.e. the plain two-round case)
+            before = "+".join(sorted({s[0] for s in steps if s[0] != "same"})) or "none"
+            for oracle, k, msg, facts in bad:
+                sig = {"step": step[0], "kind": k, "unsubscribed_topic_with_partitions": _extra_topic(spec, nsubs),
+                       "membership_changes_before": before}
+                sig.update(facts)
+                mv.add(size, oracle, sig, replay,
                        f"round {gen + 1}: {msg}; first-round input {_desc(states, subs1)}; steps {chain}; "
                        f"round {gen} result {res}; round {gen + 1} result {nres}")
-            if gen + 1 < depth and not any(o == "valid" for o, _, _ in bad):
+            if gen + 1 < depth and not any(b[0] == "valid" for b in bad):
                 nh = {k: hist.get(k, []) + [(gen + 1, nwire[k])] for k in nsubs}
                 rec(nsubs, nres, nh, chain, gen + 1)
 
@@ -265,7 +281,7 @@ def replay(ctx, data):
     if len(rounds) != len(steps) + 1:
         return 1
     bad = _judge_step(spec, steps[-1], rounds[-2][0], rounds[-2][1], rounds[-1][0], rounds[-1][1])
-    for oracle, k, msg in bad:
+    for oracle, k, msg, _facts in bad:
         print(f"FAIL {oracle}/{k}: {msg}")
     if not bad:
         print("all oracles satisfied")
